@@ -34,6 +34,7 @@ def jobs(tier, seed):
     for a in range(0, N, 21):
         J.append(dict(name="bec2:header-truncated:%d-%d" % (a, min(N, a + 21) - 1), kind="bec2trunc", lo=a, hi=min(N, a + 21), timeout=1500, cost=100))
     J.append(dict(name="bf3:zero-lengths", kind="bf3len", timeout=1500, cost=200))
+    J.append(dict(name="bf3:300-entries", kind="bf3many", n=300, timeout=3000, cost=800))
     J.append(dict(name="bf3:enc-tag-on-unaligned-payload", kind="bf3enc", timeout=900, cost=100))
     for shape in ("reboot-first", "double-check-fwver", "loader-without-interface", "select-without-filter", "bad-firmware-line", "peripheral-bad-filter", "unknown-instruction", "load-only"):
         J.append(dict(name="bf2:%s" % shape, kind="bf2", shape=shape, timeout=900, cost=50))
@@ -230,6 +231,33 @@ def run_job(job):
 
         res = runner.run(h, job["timeout"] - 60, job["timeout"] - 60)
         res["symbolic_dims"] = 1
+    elif kind == "bf3many":
+        # more than 255 directory entries: the entry index no longer fits one byte
+        class Const(crypto.AES128):
+            def encrypt(self, d):
+                return bytes(-(-len(d) // 16) * 16)
+
+            def decrypt(self, d):
+                return d
+
+            def mac(self, d):
+                return bytes(15) + bytes([len(d) % 251])
+
+        n = job["n"]
+
+        def h():
+            crypto.register_AES128(Const)
+            pays = [sym.sym_bytes("p%d_" % i, 1) for i in range(n)]
+            f = bf.Bf3File({}, [bf.Bf3Component({}, p) for p in pays])
+            c = stubs.Carrier()
+            f.write_file(c, bytes(16))
+            ok = True
+            for chk in (True, False):
+                ok = ok and call(lambda: bf.Bf3File.read_file(c, chk, bytes(16)), dict(entries=n, check_cmac=chk), "Bf3File.read_file")
+            return ok
+
+        res = runner.run(h, job["timeout"] - 60, job["timeout"] - 60)
+        res["symbolic_dims"] = n
     elif kind in ("bf3len", "bf3enc"):
         from props import c05
         from bec2format.crypto import create_AES128
@@ -387,6 +415,18 @@ def replay(job):
                     r["detail"] += " | block tag %02X content %s decryptors %s" % (TAG, content.hex(), dec)
                     return r
         return dict(reproduced=False, detail="no candidate reproduced an unexpected exception class")
+    if kind == "bf3many":
+        n = job["n"]
+        f = bf.Bf3File({}, [bf.Bf3Component({}, bytes([i % 256])) for i in range(n)])
+        s = io.StringIO()
+        f.write_file(s, bytes(16))
+        for chk in (True, False):
+            s.seek(0)
+            r = run(lambda: bf.Bf3File.read_file(s, chk, bytes(16)), "Bf3File.read_file")
+            if r:
+                r["detail"] += " | file with %d components, check_cmac=%s" % (n, chk)
+                return r
+        return dict(reproduced=False)
     if kind in ("bf3len", "bf3enc"):
         from props import c05
         from bec2format.crypto import create_AES128
